@@ -938,8 +938,8 @@ __prep_strfd_ywd(struct strpd_s *tgt, dt_ywd_t d)
 		/* put gregorian year into y and real year into q */
 		tgt->y = d.y - 1;
 		tgt->q = d.y;
-	} else if (d.c >= 53 && d.w >= __ywd_get_jan01_wday(d) +
-		   1U/*coz 365 = 1 mod 7*/ + __leapp(d.y)) {
+	} else if (d.c >= 52 &&
+		   __ywd_get_yday(d) > 365 + (int)__leapp(d.y)) {
 		/* put gregorian year into y and real year into q */
 		tgt->y = d.y + 1;
 		tgt->q = d.y;
